@@ -130,6 +130,8 @@ pub fn run(tier: Tier, seed: u64) -> i32 {
                             }
                             let e = Expr::cmp(Lhs::field("i"), *op, Rhs::Lit(Lit::Int(*lit, form)));
                             note(check_filter(&run, ID, &b, &e));
+                        note(check_filter(&run, ID, &b, &Expr::not(e.clone())));
+                            note(check_filter(&run, ID, &b, &Expr::not(e.clone())));
                             run.sample(3, || json!({"layer": "atom", "universe": tag, "filter": render(&e)}));
                         }
                     }
@@ -154,6 +156,7 @@ pub fn run(tier: Tier, seed: u64) -> i32 {
                         for f in forms {
                             let e = Expr::cmp(Lhs::field("s"), op, Rhs::Lit(Lit::Bytes(lit.clone(), f)));
                             note(check_filter(&run, ID, &b, &e));
+                            note(check_filter(&run, ID, &b, &Expr::not(e.clone())));
                         }
                     }
                 }
